@@ -16,4 +16,5 @@ INVARIANT RefusedKeeps
 INVARIANT Motion
 INVARIANT UpdateRel
 INVARIANT Affine
+INVARIANT Homogeneous
 INVARIANT EmitWT
